@@ -262,6 +262,37 @@ func vScripts() []vScript {
 			dr.opObs(w.obsBy(mem[0], d2, k2.TxHash[:]), "member")
 			dr.opObs(w.obsBy(mem[1], d2, k2.TxHash[:]), "member")
 		}},
+		{"c01-signatures-of-an-earlier-message-replayed-under-a-new-digest", func(dr *vDriver, w *vWorld) {
+			// message A is observed by everybody (the peers' genuine observations pass through the node); the node then observes message B
+			// on its own and a peer replays the others' signatures of A, byte for byte, under B's digest: they do not recover to any member
+			// for B, nothing may be recorded, B stays without quorum
+			mem := members(4, 0)
+			dr.opClock(1000)
+			dr.opSetGS(w.set(mem, 0))
+			ka := w.msg(0)
+			da := digestOfMsg(ka, 0)
+			dr.opMsg(ka)
+			dr.opLoop(0)
+			oa := []*gossipv1.SignedObservation{w.obsBy(mem[1], da, ka.TxHash[:]), w.obsBy(mem[2], da, ka.TxHash[:]), w.obsBy(mem[3], da, ka.TxHash[:])}
+			for _, o := range oa {
+				dr.opObs(o, "member")
+			}
+			kb := w.msg(0)
+			db := digestOfMsg(kb, 0)
+			dr.opMsg(kb)
+			dr.opLoop(0)
+			for _, o := range oa {
+				dr.opObs(&gossipv1.SignedObservation{Addr: o.Addr, Hash: db, Signature: o.Signature, TxHash: kb.TxHash[:], MessageId: "x"}, "signature-of-another-digest")
+			}
+			// the same before the node has seen the message itself, and then its own observation
+			kc := w.msg(0)
+			dc := digestOfMsg(kc, 0)
+			for _, o := range oa {
+				dr.opObs(&gossipv1.SignedObservation{Addr: o.Addr, Hash: dc, Signature: o.Signature, TxHash: kc.TxHash[:], MessageId: "x"}, "signature-of-another-digest")
+			}
+			dr.opMsg(kc)
+			dr.opLoop(0)
+		}},
 		{"c01-inbound-vaa-under-quorum-after-the-set-grew", func(dr *vDriver, w *vWorld) {
 			// a set of 4 (threshold 3): a valid inbound VAA is stored; the set grows to 7 (threshold 5): inbound VAAs with 3 and with 4 valid
 			// signatures of the NEW set are below its threshold and must not be stored (a threshold remembered from the old set would accept them)
